@@ -161,6 +161,12 @@ def openConn (s : St) (i : Nat) : Bool :=
     running replay has not connected yet is reverted like any other. -/
 def stopBlocked (s : St) : Bool := s.queue.any (fun e => openConn s e.idx)
 
+/-- the HTTP layer marks the flow live when its replay starts -/
+def markLive (fs : List FState) (i : Nat) : List FState :=
+  match fs[i]? with
+  | some f => fs.set i { f with lv := true }
+  | none => fs
+
 /-- the request of background replay `t` has been written -/
 def markSent (t : Nat) (p : Entry × Phase) : Entry × Phase :=
   if p.1.ticket == t && p.2 == .taken then (p.1, .sent) else p
